@@ -74,9 +74,12 @@ impl<'a> ResolveScope<'a> {
             .iter()
             .find(|i| i.what.iter().any(|what| what.eq(item)))
             .and_then(|import| {
-                self.scope.iter().find(|m| {
-                    (m.oid.is_some() && m.oid.eq(&import.from_oid)) || m.name.eq(&import.from)
-                })
+                // an object identifier in the import clause identifies the module, the name
+                // decides only if no loaded module carries that object identifier
+                self.scope
+                    .iter()
+                    .find(|m| m.oid.is_some() && m.oid.eq(&import.from_oid))
+                    .or_else(|| self.scope.iter().find(|m| m.name.eq(&import.from)))
             })
     }
 
